@@ -259,6 +259,23 @@ TEXT_MODELS = {k: FOLD_MODELS[k] for k in ('offset', 'total', 'plain', 'plain_up
 COLOR_MODELS = dict(TEXT_MODELS, color_at=FOLD_MODELS['color_at'])
 
 
+from pyvc.verify import parse_expr as _parse      # noqa
+from pyvc.interp import Env as _Env               # noqa
+
+
+def pad_like_str(shown, n, fill, align, width):
+    """what format(s, spec) does with a str s of n visible characters, applied to the text `shown`:
+    spec = [[fill]align][width][s]; default alignment of str is '<', default fill ' '"""
+    w = 0 if width == '' else width
+    f = ' ' if fill == '' else fill
+    pad = max(w - n, 0)
+    if align == '>':
+        return f * pad + shown
+    if align == '^':
+        return f * (pad // 2) + shown + f * (pad - pad // 2)
+    return shown + f * pad
+
+
 def ANYCHUNKS():
     return T.symobjlist('ak.color:_CHTextChunk', c_prefix=T.str, text=T.str, c_suffix=T.str)
 
@@ -498,6 +515,18 @@ UNBOUNDED_CONTRACTS = [
                  'returns_self': "result is self",
              },
              symlist_models=COLOR_MODELS, raises={}, modifies=['self.chunks', 'self.scrlen']),
+    Contract(M, 'CHText.__format__', name='CHText.__format__/any_length', prop=PROP, spec_globals=G, level='top',
+             params={'self': T.one_of(ANYTEXT()),
+                     'fill': T.one_of(T.const(''), T.str_len(1)),
+                     'align': T.one_of(T.const(''), T.const('<'), T.const('>'), T.const('^')),
+                     'width': T.one_of(T.const(''), *[T.const(w) for w in (0, 1, 2, 7, 10, 25)]),
+                     'kind': T.one_of(T.const(''), T.const('s')),
+                     'format_spec': T.derived('fill + align + str(width) + kind',
+                                              lambda I, a: I.eval(_parse('fill + align + str(width) + kind'),
+                                                                  _Env(dict(a), pyglobals={'str': str})))},
+             requires=["wf_any(self)", "fill == '' or align != ''"],
+             ensures={'padding': "result == pad_like_str(rendered(self.chunks), self.scrlen, fill, align, width)"},
+             symlist_models=FOLD_MODELS, raises={}, modifies=[]),
     Contract(M, 'CHText.fixed_len', name='CHText.fixed_len/any_length', prop=PROP, spec_globals=G, level='top',
              params={'self': T.one_of(ANYTEXT()), 'desired_len': T.int, 'p': T.int},
              requires=["wf_any(self)", "desired_len >= 0"],
@@ -680,7 +709,8 @@ def total_runs(rs):
 
 CHText_cls = akc.CHText
 
-BOUNDED_SYMBOLIC = {'CHText.join/any_length': "at most 3 joined items (str / chunk / text); every text has any number of chunks",
+BOUNDED_SYMBOLIC = {'CHText.__format__/any_length': "widths from {none, 0, 1, 2, 7, 10, 25}; any fill character, every alignment, text with any number of chunks",
+                    'CHText.join/any_length': "at most 3 joined items (str / chunk / text); every text has any number of chunks",
                     'CHText.__init__/any_length': "at most 3 constructor arguments (str / chunk / text); every text has any number of chunks",
                     'CHText.join': 3, 'CHText.__init__': 2, 'CHText._append_chunk': 3, 'CHText.__iadd__': 2, 'CHText.__add__': 2, 'CHText.__radd__': 2,
                     'CHText.__eq__/text': 2, 'CHText.__eq__/str': 3, 'CHText.fixed_len': 2, 'CHText._get_chunk_pos': 3, 'CHText.__getitem__/index': 3, 'CHText.__getitem__/slice': 3}
@@ -703,6 +733,10 @@ USES = {'CHText.__getitem__/index/any_length': ['CHText._get_chunk_pos/any_lengt
         'CHText.join/any_length': _IADD_ANY + ['CHText.__init__/any_length']}
 ASSUMED_LIBRARY = []
 CANARIES = [
+    {'name': 'anylen_format_centre_extra_char_left', 'module': M, 'function': 'CHText.__format__', 'verify': 'CHText.__format__/any_length',
+     'old': 'prefix_width = filler_width // 2', 'new': 'prefix_width = filler_width - filler_width // 2',
+     'combos': ["align:const('^')", 'width:const(10)'], 'unproved_is_enough': True,
+     'expect': 'C08.CHText.__format__/any_length.padding'},
     {'name': 'anylen_eq_str_ignores_colour', 'module': M, 'function': 'CHText.__eq__', 'verify': 'CHText.__eq__/str/any_length',
      'old': 'return p.is_plain() and p.text == other', 'new': 'return p.text == other',
      'unproved_is_enough': True, 'expect': 'C08.CHText.__eq__/str/any_length.default_coloured_text_equals_str'},
